@@ -27,6 +27,9 @@ struct TypeM {
     generic: bool,
     /// (index of the ref to a generic type, index of the ref written as its type argument)
     nest: Vec<(usize, usize)>,
+    /// written as `struct Name(pub u32);` when it has no references of its own: shared as an alias, which carries a serde
+    /// rename like any other type
+    newtype: bool,
 }
 
 #[derive(Clone, Debug)]
@@ -83,7 +86,7 @@ fn gen_ws(rng: &mut Rng) -> Ws {
             let name = if rng.chance(1, 8) { st.to_uppercase() } else { format!("{}{}", cap(&st), ["", "Item", "Info"][rng.below(3)]) };
             let renamed = if rng.chance(1, 6) { Some(format!("{}Rn", cap(&st))) } else { None };
             let generic = rng.chance(1, 5);
-            types.push(TypeM { stem: st, name, renamed, krate: *c, file: fi, refs: vec![], dup: false, generic, nest: vec![] });
+            types.push(TypeM { stem: st, name, renamed, krate: *c, file: fi, refs: vec![], dup: false, generic, nest: vec![], newtype: rng.chance(1, 4) });
         }
     }
     // references: to earlier types only (acyclic), across files and crates
@@ -177,6 +180,10 @@ fn render_ws(ws: &Ws) -> Vec<SrcFile> {
             } else {
                 None
             };
+            if t.newtype && t.refs.is_empty() && !t.generic {
+                body.push_str(&format!("#[typeshare]\n{ren}pub struct {}(pub u32);\n\n", t.name));
+                continue;
+            }
             let param = shadow.as_deref().unwrap_or("T");
             body.push_str(&format!("#[typeshare]\n{ren}pub struct {}{} {{\n    pub own: u32,\n", t.name, if t.generic { format!("<{param}>") } else { String::new() }));
             if t.generic {
@@ -645,7 +652,7 @@ pub fn run(ctx: &Ctx) -> (Spec, Report) {
     }
     let spec = Spec {
         level: "exploration",
-        rule: format!("{n} generated workspaces of 1-5 crates (names drawn from 10, with dashes and underscores, half of them beginning with the name of a third-party crate typeshare ignores - time-utils, http_types, stdx, ring-buffer, synapse; a third of them with an extra `<first crate>.v2` directory, whose name differs from an existing crate only behind a dot), 1-3 files per crate at depth 1-4 under src, 1-3 types per file (an eighth of the names all capitals), references to earlier types in the same file, the same crate (crate:: / super:: / use self:: / use crate::) and other crates (use single / grouped / nested / glob, qualified and deep qualified paths), a fifth of the types generic (half of those naming their parameter like a cross-crate type another item of the file imports) and referred to with a type argument that is itself a reference in any of those forms (`other::Page<third::models::deep::Item>`), wrapped in nothing / Vec / Option / HashMap value / Box<[..; 2]> / HashMap key (not the last type argument), a sixth of the types serde-renamed, optional prefix and a foreign type mapping; real binary with --output-folder and, as twin, --output-file; TypeScript, Kotlin, Swift, Python (Scala and Go have no multi-file support); oracle: file set and names from the crate rule, every type in exactly its crate's file, union of definitions equals the single-file run, TS/Kotlin imports resolve to the defining file and name only defined types; plus one crate reached through 17 spellings of its path (from the workspace, from inside the crate, from inside src, through `..`, absolute, below an ancestor directory that is itself named src) whose output file must be named after the directory above src; distinct = (language, crate count, prefix?) and (language, reference form, renamed?)"),
+        rule: format!("{n} generated workspaces of 1-5 crates (names drawn from 10, with dashes and underscores, half of them beginning with the name of a third-party crate typeshare ignores - time-utils, http_types, stdx, ring-buffer, synapse; a third of them with an extra `<first crate>.v2` directory, whose name differs from an existing crate only behind a dot), 1-3 files per crate at depth 1-4 under src, 1-3 types per file (an eighth of the names all capitals), references to earlier types in the same file, the same crate (crate:: / super:: / use self:: / use crate::) and other crates (use single / grouped / nested / glob, qualified and deep qualified paths), a fifth of the types generic (half of those naming their parameter like a cross-crate type another item of the file imports) and referred to with a type argument that is itself a reference in any of those forms (`other::Page<third::models::deep::Item>`), wrapped in nothing / Vec / Option / HashMap value / Box<[..; 2]> / HashMap key (not the last type argument), a sixth of the types serde-renamed, a quarter of the reference-free ones written as newtype structs (shared as aliases), optional prefix and a foreign type mapping; real binary with --output-folder and, as twin, --output-file; TypeScript, Kotlin, Swift, Python (Scala and Go have no multi-file support); oracle: file set and names from the crate rule, every type in exactly its crate's file, union of definitions equals the single-file run, TS/Kotlin imports resolve to the defining file and name only defined types; plus one crate reached through 17 spellings of its path (from the workspace, from inside the crate, from inside src, through `..`, absolute, below an ancestor directory that is itself named src) whose output file must be named after the directory above src; distinct = (language, crate count, prefix?) and (language, reference form, renamed?)"),
         assumptions: vec![
             "`use .. as ..` renames are outside the stated domain and not generated".into(),
             "extra imports (a glob brings in every type of the crate) are allowed as long as the module defines them".into(),
